@@ -3,7 +3,8 @@
    or loopback TCP for the limiter family), written as the LTS trace it corresponds to, each label carrying
    what the implementation was observed to do at that point:
      Arrive r c      [tag]          live policy tag (PolicyOptions.MaxFileSize) read just before the request was issued
-     TryRLock r      [res]          1 = the request got past admission, 0 = it was answered NFS3ERR_JUKEBOX
+     TryRLock r      [res]          1 = the request got past admission, 0 = it was answered NFS3ERR_JUKEBOX,
+                                    2 = issued during a drain and neither answered nor executing after 5 s
      Auth r ok       [hp]           ok observed (MSG_DENIED or not); hp = 1 when the client port was >= 1024
      Op r            [tag; ro; mut] live tag and live ReadOnly seen by a backend call of r; mut = the call mutates
      ULock u         [err]          1 = UpdatePolicyOptions returned the Squash error
@@ -155,7 +156,7 @@ Definition ostep (o : ost) (l : label) (ob : list N) : ost * bool :=
           (with_fields o (o_tag o) (o_old o) (o_pols o) (o_inflight o) (o_draining o) (o_issue o) (o_conn o)
              (if admitted then r :: o_exec o else o_exec o) (o_epoch o) (o_lim o) (o_cnt o),
            (* arrivals during a drain get retry-later; with no update in flight nobody is turned away *)
-           (if dr then negb admitted else true) && (if infl then true else admitted))
+           (if dr then nth_obs ob 0 =? 0 else true) && (if infl then true else admitted))
       | None => (o, false)
       end
   | Auth r ok =>
